@@ -1,7 +1,7 @@
 (* C01 — paragraphs sit at depth 4 in every view, for every document.
    Statements only; proofs in proofs/ShapeFacts.v. *)
 From Coq Require Import List Arith.
-From D2P Require Import Str Err Xml Merge Collector Walk Iter Output Paths Package Content ShapeFacts ViewFacts PkgShape.
+From D2P Require Import Str Err Xml Merge Collector Walk Iter Output Paths Package Content ShapeFacts ViewFacts PkgShape PyVal Source SourceBase SourceViews.
 Import ListNotations.
 
 (* for EVERY element tree (any nesting of paragraphs, tables, wrappers,
@@ -69,3 +69,19 @@ Print Assumptions C01_document_runs_depth.
 Theorem C01_document_depth : forall a o z, document a o = Ok z -> deep 4 z.
 Proof. exact document_deep. Qed.
 Print Assumptions C01_document_depth.
+
+(* TIE TO THE SOURCE TEXT (gen/Source.v is regenerated from /repo by tools/gen_source.py on
+   every run): the two functions that rebuild the string views level by level from the record
+   view, AS TRANSLATED FROM THE PYTHON SOURCE, equal the model's get_par_strings / join_runs
+   whose shape preservation is proved above *)
+Theorem C01_source_get_par_strings : forall html t,
+  deep 4 t ->
+  S_get_par_strings (enc_rose (enc_par html) t) = lift_rose VStr (get_par_strings html t).
+Proof. exact src_get_par_strings. Qed.
+Print Assumptions C01_source_get_par_strings.
+
+Theorem C01_source_join_runs : forall t,
+  deep 5 t ->
+  S__join_runs (enc_rose VStr t) = lift_rose VStr (join_runs t).
+Proof. exact src_join_runs. Qed.
+Print Assumptions C01_source_join_runs.
